@@ -82,6 +82,7 @@ func main() {
 	}
 	eng.Natives = natives
 	eng.Tier = 0
+	symgo.NativeReplayTier = *tier
 	if *tier == "thorough" {
 		eng.Tier = 1
 	}
@@ -191,7 +192,7 @@ func main() {
 // term of the wrong magnitude, which the algebraic model cannot see) is reported as a violation found by the
 // validation run, with its replay file.
 func nativeValidation(h *ssa.Function, hr *symgo.HarnessResult, replayDir, self string, seed int64) {
-	rf := symgo.ReplayFile{Package: h.Pkg.Pkg.Path(), Harness: h.Name(), Obligation: "native-validation", Kind: "validation",
+	rf := symgo.ReplayFile{Tier: symgo.NativeReplayTier, Package: h.Pkg.Pkg.Path(), Harness: h.Name(), Obligation: "native-validation", Kind: "validation",
 		Inputs: map[string]string{"@seed": fmt.Sprint(seed*2654435761 + 12345)}}
 	os.MkdirAll(replayDir, 0o755)
 	path := filepath.Join(replayDir, h.Name()+"_native-validation.json")
